@@ -348,10 +348,12 @@ def check_accessors_hexital(col, rnd, n, seed, kind):
     tfs = [t for t in twin.get_candles() if t != "default"]
     spec = {"hexital": [f"{k}@{tf or 'default'}" for k, tf in picks],
             "stream": f"oracles.c19.stream({kind!r},{n + 6},seed={seed})", "warm": n}
-    for accessor, fn in hexital_accessors(names[:3], tfs, n):
+    for accessor, fn, calculated in [(a, f, True) for a, f in hexital_accessors(names[:3], tfs, n)] + \
+            [(a + "  # before anything was calculated", f, False) for a, f in hexital_accessors(names[:3], tfs, n)]:
         col.tick()
         obj = build_hex(picks, gen.clone(warm))
-        obj.calculate()
+        if calculated:
+            obj.calculate()  # otherwise: readings are still missing (as after add_indicator / purge): reading them must not compute them
         before = snap(obj)
         _, exc = call(fn, obj)
         after = snap(obj)
